@@ -227,7 +227,7 @@ def run_config(c: dict) -> dict:
     if c["init"] == "given" and c["kind"] != "sum":
         for k in range(1, c["maxiters"] + 1):
             rk, Mk, _, outk, _, _, _ = run(k, 0.0, 0, c["fixsigns"], "given")
-            tr["ev"].append({"op": "truncated", "args": {"k": k, "calls": rk.calls, "fit": (int(round(outk["fit"] * 1e9)) if np.isfinite(outk["fit"]) and abs(outk["fit"]) < 2 else -2000000000)}})
+            tr["ev"].append({"op": "truncated", "args": {"k": k, "calls": rk.calls, "fit": (-int(round((1 - outk["fit"]) ** 2 * 1e9)) if np.isfinite(outk["fit"]) and abs(outk["fit"]) < 2 else -2000000000)}})
     return tr
 
 
